@@ -1,7 +1,5 @@
 import Ivg.Lemmas.GradQ
-import Ivg.Gen.Tie.DrawOps
 import Ivg.Gen.Tie.GradientFields
-import Ivg.Gen.Tie.Magic
 import Ivg.Gen.Tie.RendererFields
 import Ivg.Obligations
 /-!
@@ -214,11 +212,21 @@ theorem rawOffset_eq (g : Gradient ℚ) (x y : Int) :
 
 end Ivg.Props.C15
 
-#obligations C15 [
-  Ivg.Props.C15.clamp_spec, Ivg.Props.C15.clamp_inside, Ivg.Props.C15.clamp_pad, Ivg.Props.C15.clamp_repeat,
-  Ivg.Props.C15.clamp_reflect, Ivg.Props.C15.tri_of_floor, Ivg.Props.C15.clamp_none,
-  Ivg.Props.C15.at_none_outside, Ivg.Props.C15.at_spec, Ivg.Props.C15.at_stop,
-  Ivg.Props.C15.before_first_after_last, Ivg.Props.C15.at_interp, Ivg.Props.C15.premul_valid,
-  Ivg.Props.C15.pix2grad_compose, Ivg.Props.C15.gradient_at_spec, Ivg.Props.C15.rawOffset_eq,
-  Ivg.Gen.Tie.drawOps_tie, Ivg.Gen.Tie.magic_tie, Ivg.Gen.Tie.renderer_fields_tie,
+#obligations C15 [Ivg.Props.C15.clamp_spec,
+  Ivg.Props.C15.clamp_inside,
+  Ivg.Props.C15.clamp_pad,
+  Ivg.Props.C15.clamp_repeat,
+  Ivg.Props.C15.clamp_reflect,
+  Ivg.Props.C15.tri_of_floor,
+  Ivg.Props.C15.clamp_none,
+  Ivg.Props.C15.at_none_outside,
+  Ivg.Props.C15.at_spec,
+  Ivg.Props.C15.at_stop,
+  Ivg.Props.C15.before_first_after_last,
+  Ivg.Props.C15.at_interp,
+  Ivg.Props.C15.premul_valid,
+  Ivg.Props.C15.pix2grad_compose,
+  Ivg.Props.C15.gradient_at_spec,
+  Ivg.Props.C15.rawOffset_eq,
+  Ivg.Gen.Tie.renderer_fields_tie,
   Ivg.Gen.Tie.gradient_fields_tie]
